@@ -197,6 +197,12 @@ def check_distance_matcher(ctx, rules=("PATHCOUNT", "TIME", "INDEX", "GREEDY", "
         adds = [x for x in fv.calls() if isinstance(x.func, ast.Attribute) and x.func.attr == "add" and len(x.args) == 1]
         okadd = len(adds) == 1 and U(adds[0].args[0]) == c_
         setname = U(adds[0].func.value) if adds else None
+        if setname:
+            init = [s for s in fi.node.body if isinstance(s, (ast.Assign, ast.AnnAssign)) and U(s.targets[0] if isinstance(s, ast.Assign) else s.target) == setname]
+            fresh = len(init) == 1 and U(init[0].value) in ("set()", "set([])")
+            ctx.decide(fresh, "INDEX", site + ":matched-set-fresh", (fi, init[0]) if init else (fi, adds[0]),
+                       "the matched set starts empty for every frame",
+                       f"the set `{setname}` of matched droplet indices is not initialised as an empty set at the top of the per-frame matcher: indices matched in earlier frames persist, and droplets with those indices that stay unmatched in a later frame are silently dropped")
         ctx.decide(okadd, "INDEX", site + ":matched-set", (fi, adds[0]) if adds else fi, f"the matched set records the droplet (column) index `{c_}`",
                    f"the matched set records `{U(adds[0].args[0]) if adds else '?'}`; it must record the index `{c_}` of the matched droplet within the frame (the final loop tests droplet indices)")
         inval = {}
@@ -378,9 +384,13 @@ def check_track_append(ctx, rules=("OWN", "NONETEST", "PAIR")):
         nonetest.check(ctx, fi, tp, "the time stamp")
     if "PAIR" in rules:
         tt = [c for c in fv.calls() if isinstance(c.func, ast.Attribute) and c.func.attr == "append" and U(c.func.value) == "self.times"]
-        ok = len(st) == 1 and len(tt) == 1 and U(tt[0].args[0]) == tp and fv.post_dominates(tt[0], st[0])
+        ok = len(st) == 1 and len(tt) == 1 and fv.post_dominates(tt[0], st[0])
         ctx.decide(ok, "PAIR", site, (fi, tt[0]) if tt else fi, "one droplet and one time are appended together",
                    "droplets and times are not appended pairwise on every path")
+        if tt:
+            from .collections import _check_default_time
+
+            _check_default_time(ctx, fi, fv, tt[0], tp)
 
 
 def check_input_untouched(ctx):
